@@ -141,7 +141,7 @@ func (r *run) runBlock(si int, items []item, commit bool) {
 	if r.gate {
 		release = make(chan struct{})
 		verifhook.GateFn = func(site string) {
-			if site == "evm.tryValidate.failed" {
+			if site == "evm.tryValidate.failed" || site == "evm.txQueue.afterInit" {
 				select {
 				case <-release:
 				case <-time.After(40 * time.Millisecond):
